@@ -667,7 +667,7 @@ def strategy(tier):
 
 
 def budget(tier):
-    return 8000 if tier == "quick" else 60000
+    return 8000 if tier == "quick" else 200000
 
 
 def explicit(tier, seed):
